@@ -276,7 +276,7 @@ func runFlistDecCase(r *run, id string, o fopts, wire []byte, kind string, inten
 	r.emit("flist_dec", id, []string{o.String(), hexOrDash(wire)}, obs, err == nil && len(ents) >= 2)
 }
 
-var nameAlphabet = []string{"a", "b", "dir", "sub", "x.txt", "\xc3\xa9", "\xff\xfe", "longer-name", "z", "0"}
+var nameAlphabet = []string{"a", "b", "dir", "sub", "x.txt", "\xc3\xa9", "\xff\xfe", "longer-name", "z", "0", "dir.txt", "dir-x", "dir x", "sub+", "a!", "#a", "-b"} // incl. siblings that differ from a directory name by a byte below '/'
 
 func genEntries(g *rng, n int) []fentry {
 	seen := map[string]bool{}
